@@ -100,7 +100,7 @@ CHECKS.update({
  'C17': dict(
    text="Lean theorems over Q: perpSq is the minimum over the whole line and shortestSq the minimum over the closed segment of the squared distance (both attained; a = b case); "
         "IoU symmetric, in [0,1], 1 for identical non-degenerate rectangles, 0 for disjoint ones; Menger curvature^2 symmetric under all permutations, 0 iff collinear, = 1/circumradius^2 "
-        "(existence of an equidistant centre); rankOf is a permutation of 0..n-1 that orders the values (stable). Tie: exact-Q values vs linear_fit.shortest/perpendicular_distance_*, "
+        "(existence of an equidistant centre); rankOf is a permutation of 0..n-1 that orders the values (stable); Props/Invariance: perpSq/shortestSq/mengerSq/triArea translation invariant and homogeneous (degrees 2, 2, -2, 2), hence inputs at 1e-9 scale, 1e9 scale and with large common offsets are judged with relative rounding scales. Tie: exact-Q values vs linear_fit.shortest/perpendicular_distance_*, "
         "knee_ranking.rect_overlap, menger.menger_curvature, postprocessing.triangle_area under tolerance; rank exact; sub-range and symmetry predicates on the real code.",
    note=TB + " Square roots are avoided by comparing squares; rounding is the stated tolerance.",
    tech="Lean 4 proof (Lagrange identity, field_simp/ring/nlinarith over Q) + Layer-N value correspondence with tolerance",
